@@ -425,12 +425,12 @@ func (c *checker) run(j job) {
 		// ---- (4) timestamp: fresh entries carry the request clock, duplicates the stored entry's
 		ident := sha256.Sum256(sh.leaf.DER)
 		wantTS, wantExt := reqMS, []byte(nil)
-		hstep := "first-submission"
+		hstep, hclass := "first-submission", "first-submission"
 		if old, dup := stored[ident]; dup {
 			wantTS = old
-			hstep = st.String()
+			hstep, hclass = st.String(), "duplicate"
 		} else if i > 0 {
-			hstep = st.String() + "(fresh)"
+			hstep, hclass = st.String()+"(fresh)", "fresh-entry-after-another"
 		}
 		if echo != nil {
 			wantTS = echo.tsAbs
@@ -438,17 +438,17 @@ func (c *checker) run(j job) {
 				wantTS = uint64(int64(reqMS) + echo.tsDelta)
 			}
 			wantExt = echo.ext
-			hstep = "backend-echoes-other-stored-leaf"
+			hstep, hclass = "backend-echoes-other-stored-leaf", "backend-echoes-other-stored-leaf"
 		} else if _, dup := stored[ident]; !dup {
 			stored[ident] = reqMS
 		}
 		if ts != wantTS {
-			c.r.Violation("timestamp: SCT does not carry the stored entry's timestamp: "+hstep,
+			c.r.Violation("timestamp: SCT does not carry the stored entry's timestamp: "+hclass,
 				fmt.Sprintf("%s, submission %d of [%s] at clock %d ms: SCT timestamp %d, stored entry has %d", sh.label(), i, histLabel(j.hist), reqMS, ts, wantTS),
 				cd(fmt.Sprint(wantTS), fmt.Sprint(ts)))
 		}
 		if !bytes.Equal(ext, wantExt) {
-			c.r.Violation("extensions: SCT extensions differ from the stored entry's: "+hstep,
+			c.r.Violation("extensions: SCT extensions differ from the stored entry's: "+hclass,
 				fmt.Sprintf("SCT extensions %x, stored entry has %x", ext, wantExt), cd(fmt.Sprintf("%x", wantExt), fmt.Sprintf("%x", ext)))
 		}
 
@@ -460,13 +460,13 @@ func (c *checker) run(j job) {
 		if why := verifySig(j.lk, ds, input); why != "" {
 			// diagnosis only: if the leaf the front end queued already differs from the reference
 			// entry, the cause is the entry derivation (named by field), otherwise the signing
-			cause := "entry-as-queued-matches-reference logkey=" + j.lk.Kind
+			cause, feat := "entry-as-queued-matches-reference logkey="+j.lk.Kind, "kind="+sh.kind
 			if len(queued) == 1 {
 				if f := diffEntry(queued[0].Req.(*trillian.QueueLeafRequest).Leaf.LeafValue, refMTL(entry, reqMS)); f != "" && f != "timestamp" {
-					cause = "front-end-derives-different-" + f
+					cause, feat = "front-end-derives-different-"+f, sh.featuresFor(f)
 				}
 			}
-			c.r.Violation(fmt.Sprintf("sct-signature does not verify over the client-derived entry: %s %s", sh.features(), cause),
+			c.r.Violation(fmt.Sprintf("sct-signature does not verify over the client-derived entry: %s %s", feat, cause),
 				fmt.Sprintf("%s posted [%s] to a log with key %s: %s over CertificateTimestamp %s at timestamp %d", sh.label(), formName(form), j.lk.Name, why, rep.Hex(input), ts),
 				cd("signature verifies over "+fmt.Sprintf("%x", input), why))
 		}
@@ -485,7 +485,11 @@ func (c *checker) run(j job) {
 					if field == "" {
 						field = "encoding"
 					}
-					c.r.Violation(fmt.Sprintf("queued-leaf-value differs from the reference MerkleTreeLeaf in %s: %s", field, sh.features()),
+					sig := fmt.Sprintf("queued-leaf-value differs from the reference MerkleTreeLeaf in %s: %s", field, sh.featuresFor(field))
+					if field == "timestamp" {
+						sig = "queued-leaf-value differs from the reference MerkleTreeLeaf in timestamp" // independent of the entry kind
+					}
+					c.r.Violation(sig,
 						fmt.Sprintf("%s at clock %d ms: LeafValue %s, reference %s", sh.label(), reqMS, rep.Hex(q.Leaf.LeafValue), rep.Hex(wl)),
 						cd(fmt.Sprintf("%x", wl), fmt.Sprintf("%x", q.Leaf.LeafValue)))
 				}
@@ -548,7 +552,7 @@ func silenceKlog() {
 // hook and refusal phases: every entry kind x hierarchy depth x AKI combination,
 // with the poison first among three others and last after one other.
 func reduced(s *shape, th bool) bool {
-	if s.val != "utc" {
+	if s.val != "utc" || s.h.caEKU {
 		return true
 	}
 	lay := (s.m == 3 && s.poison <= 0 && s.akiPos == 0) || (s.m == 1 && (s.poison < 0 || s.poison == s.m+b2i(s.leafAKI)) && s.akiPos == 0)
@@ -685,7 +689,7 @@ func TestCheck(t *testing.T) {
 	r.Set("histories_phaseH", nH)
 	r.Set("histories_phaseK_N", nK)
 	r.Set("log_keys", lkn)
-	r.Rule(fmt.Sprintf("PKI shapes: leaf key {p256,p384,rsa2048,ed25519} x direct-issuer key {p256,p384,rsa2048,ed25519} (the up to four CAs of one hierarchy use four different algorithms; own root per hierarchy) x 0..3 intermediates x entry kind {certificate, precertificate by the direct issuer, precertificate by a dedicated signing certificate with CT EKU (1..3 intermediates, final issuer = next CA or the root)} x signing certificate with/without AKI x leaf with/without AKI x 0..3 other extensions {SAN, critical keyUsage, private} x AKI first/last among them x poison at every position (first, each middle, last); serial numbers with and without a leading 00 octet; plus NotAfter at the UTCTime/GeneralizedTime boundary (2049-12-31T23:59:59Z, 2050-01-01). %d leaf certificates in %d hierarchies. "+
+	r.Rule(fmt.Sprintf("PKI shapes: leaf key {p256,p384,rsa2048,ed25519} x direct-issuer key {p256,p384,rsa2048,ed25519} (the up to four CAs of one hierarchy use four different algorithms; own root per hierarchy) x 0..3 intermediates x entry kind {certificate, precertificate by the direct issuer, precertificate by a dedicated signing certificate with CT EKU (1..3 intermediates, final issuer = next CA or the root)} x signing certificate with/without AKI x leaf with/without AKI x 0..3 other extensions {SAN, critical keyUsage, private} x AKI first/last among them x poison at every position (first, each middle, last); serial numbers with and without a leading 00 octet; plus NotAfter at the UTCTime/GeneralizedTime boundary (2049-12-31T23:59:59Z, 2050-01-01), plus ordinary issuing CAs that carry a serverAuth/clientAuth EKU extension. %d leaf certificates in %d hierarchies. "+
 		"Phase S: every shape x {root omitted, root included} x log key %v x clock {1 ms, 1700000000.123999999 s, 2^31 s, 2^41 ms} (quick: one clock per (shape, form, log key), rotating; thorough: all four), first submission and a resubmission 7.0035 s later. "+
 		"Phase H: on the reduced set (every kind x depth x AKI combination x {poison first of 4, poison last of 2, poison only}; %d shapes) every history of 3 submissions over {resubmit, resubmit through the other root form} x {backend sequences before, not}, plus histories submitting a second precertificate with the same de-poisoned TBSCertificate, at %s. "+
 		"Phase K/N: reduced set x backend hook {echoes the same entry with timestamp 1 / clock-1 ms / clock+1000 ms / one day older with extensions abcd; status AlreadyExists or OK; Unavailable; no queued leaf; leaf with trailing byte; truncated leaf} and the endpoint of the other entry kind. "+
